@@ -3,12 +3,15 @@
    positive, nat stay Coq datatypes. No Extract Constant of our own. *)
 Require Extraction.
 Require ExtrOcamlBasic.
-From Lospan Require Import Base.Bytes Base.AES Base.Outcome Gen.Consts Model.CMAC Model.FrameTypes Model.Crypto Model.MacCmd Model.Frame
-  Spec.RFC4493 Spec.MacLayout Spec.LoRaFrame.
+From Lospan Require Import Base.Bytes Base.AES Base.Outcome Gen.Consts Model.CMAC Model.FrameTypes Model.Crypto Model.MacCmd Model.Frame Model.Join Model.Store Model.Server
+  Spec.RFC4493 Spec.MacLayout Spec.LoRaFrame Spec.RefDevice.
 Extraction Language OCaml.
 Extraction "lospan_model.ml"
   aes_enc aes_dec aescmac rfc4493 frame_crypt payload_crypt data_mic buffer_mic
   bytes_eqb le_val le_bytes devaddr_of_u32 devaddr_u32 err_code mtype_uplink
   cmd_encode cmd_decode new_cmd cmd_len new_set set_add set_remove set_list set_encoded_length set_size set_encode
   decode_bounded layout_payload layout_fields
-  decode encode mk_slice new_phy spec_decode spec_cmds spec_set s_adr s_adrackreq s_ack s_fpending s_is_data s_uplink cmd_payload_dec.
+  decode encode mk_slice new_phy spec_decode spec_cmds spec_set s_adr s_adrackreq s_ack s_fpending s_is_data s_uplink cmd_payload_dec
+  rx_event submit encode_message encode_join_accept encode_join_request decode_join_accept nwkskey_from_nonces appskey_from_nonces
+  get_by_eui get_by_devaddr key_empty
+  ref_uplink ref_on_downlink ref_join_request ref_on_join_accept ref_mic ref_crypt mic4.
